@@ -17,6 +17,13 @@ if int(variant) >= 4:
           "(b) a defect that needs a MULTI-STEP history (state left behind by an earlier call: caches, counters, interned objects, the "
           "interpretation stack, mutated defaults); (c) a defect in a rarely used code path reachable only through a less common public "
           "entry point (a different module than earlier seeds: look beyond the anchor files, at their callers and helpers).\n")
+if int(variant) >= 6:
+    t += ("\nFor this variant also consider how the property's mechanism is reached from funsor's higher-level or peripheral modules "
+          "(funsor/recipes.py, funsor/montecarlo.py, funsor/approximations.py, funsor/constant.py, funsor/factory.py, funsor/einsum/, "
+          "funsor/syntax.py, funsor/instrument.py, funsor/util.py, funsor/typing.py, funsor/ops/*.py helper functions) and seed the defect "
+          "THERE when that breaks this property through a public entry point; defects whose trigger is a numeric or structural edge "
+          "(size-1 dimensions, empty shapes, zero-size reductions, duplicate names across nesting levels, negative steps/indices, "
+          "dtype promotion) are welcome as long as ordinary use does not expose them.\n")
 t += "\n\nSites ALREADY USED by earlier seeded changes (for any property) — choose a DIFFERENT function and mechanism:\n" + "\n".join(used) + "\n"
 open(f'/tmp/seedprompt_{pid}_{variant}.txt','w').write(t)
 print(f'/tmp/seedprompt_{pid}_{variant}.txt')
